@@ -361,6 +361,22 @@ func execA(c caseA) (v verdict, err error) {
 	if resp != nil && !multipartOnMP && len(stagedBefore) > 0 && bytes.Contains(resp.Body, stagedBefore) {
 		return v, fmt.Errorf("%s returned the staged part of another object's multipart upload: %q", pfx, trunc(string(resp.Body)))
 	}
+	// a name that is not the key of an existing object but would resolve to its file (doubled separators) is an opaque
+	// name of its own or is refused: it is not another spelling of that object
+	if c.Param == "key" || c.Param == "delete-key" || c.Param == "copy-source" {
+		for k, content := range map[string]string{cat.KeyObj: cat.CanaryObjA, cat.KeyNested: "object two"} {
+			if h == k || strings.Contains(h, "..") || filepath.Clean("/"+h) != "/"+k {
+				continue
+			}
+			data, rerr := os.ReadFile(filepath.Join(w.sb.Root, w.fx.BktA, k))
+			if rerr != nil || !bytes.Contains(data, []byte(content)) {
+				return v, fmt.Errorf("%s changed the object %q, which the request does not name (the name given only resolves to the same file): now %q (%v)", pfx, k, trunc(string(data)), rerr)
+			}
+			if resp != nil && resp.Status/100 == 2 && c.Param != "copy-source" && bytes.Contains(resp.Body, []byte(content)) {
+				return v, fmt.Errorf("%s returned the data of the object %q, which the request does not name: %q", pfx, k, trunc(string(resp.Body)))
+			}
+		}
+	}
 	if resp != nil && resp.Status == 200 && strings.HasPrefix(c.Spec.Op, "List") && (bytes.Contains(resp.Body, []byte("<Key>.sgwtmp")) || bytes.Contains(resp.Body, []byte("<CommonPrefixes><Prefix>.sgwtmp"))) {
 		return v, fmt.Errorf("%s lists names of the backend's staging area: %q", pfx, trunc(string(resp.Body)))
 	}
@@ -474,7 +490,9 @@ func genCase(t *rapid.T) caseA {
 		// staged, its directories, with the separators a path join swallows
 		s := rapid.SampledFrom([]string{"{mp1part}", "{mp1part}", "{mp1part}", ".sgwtmp/multipart/", ".sgwtmp/", ".sgwtmp/x"}).Draw(t, "staging")
 		return rapid.SampledFrom([]string{"", "", "/", "//", "dir/../", "obj1/../"}).Draw(t, "staging_lead") + s
-	})).Draw(t, "hostile")
+	}), rapid.SampledFrom([]string{
+		// other spellings of names that exist in the bucket: separators doubled, leading, trailing
+		"dir//obj2", "dir///obj2", "dir//obj2", "/obj1", "//obj1", "obj1/", "obj1//", "dir/obj2/", "/dir/obj2", "dir//", "dirobj//"})).Draw(t, "hostile")
 	c.Spelling = rapid.SampledFrom([]string{"plain", "plain", "raw", "raw", "pct", "pct-lower", "double", "mixed"}).Draw(t, "spelling")
 	c.Dup = rapid.SampledFrom([]int{0, 0, 0, 1, 2}).Draw(t, "dup")
 	return c
